@@ -109,6 +109,11 @@ def foreign(chk, case, res):
             chk.known(f['id'], case | {'exception': res[1]})
             return
     chk.violation('foreign-exception', case, res)
+    chk.distribution.setdefault('foreign exception sites', {})
+    key = f'{res[1]} @ {res[2]}'
+    d = chk.distribution['foreign exception sites']
+    d[key] = d.get(key, 0) + 1
+    chk.distribution.setdefault('foreign exception examples', {}).setdefault(key, case.get('expr') or case.get('source'))
 
 
 def run(chk):
@@ -186,8 +191,36 @@ def run(chk):
         for fn in FUNS1:
             for a in VALS:
                 tasks.append({'id': tid, 'kind': 'eval', 'version': v, 'expr': f'{fn}({a})'}); tid += 1
+    # every registered function of arity 1 and 2 (XPath 3.1) on typed values, incl. arrays, maps and function items
+    from elementpath.xpath31 import XPath31Parser as _P31
+    NS = {'http://www.w3.org/2005/xpath-functions': '', 'http://www.w3.org/2005/xpath-functions/math': 'math:',
+          'http://www.w3.org/2005/xpath-functions/map': 'map:', 'http://www.w3.org/2005/xpath-functions/array': 'array:',
+          'http://www.w3.org/2001/XMLSchema': 'xs:'}
+    SKIP = {'exp10', 'doc', 'collection', 'uri-collection', 'unparsed-text', 'unparsed-text-lines', 'json-doc', 'trace', 'error', 'environment-variable',
+            'available-environment-variables', 'random-number-generator', 'load-xquery-module', 'transform', 'unparsed-text-available', 'doc-available'}
+    VALS31 = VALS + ["[1, 2]", "map{'a': 1}", "abs#1", "function($x) { $x }", "[]", "map{}", "''", "-1", "0", "xs:untypedAtomic('')"]
+    SMALL = ["1", "'a'", "()", "(1,2)", "xs:untypedAtomic('x')", "/r", "[1, 2]", "map{'a': 1}", "abs#1", "xs:date('2000-01-01')", "1.5", "xs:double('NaN')", "true()", "-1"]
+    seen = set()
+    for (qname, arity), sig in sorted(_P31().function_signatures.items(), key=lambda kv: (kv[0][0].namespace or '', kv[0][0].local_name, kv[0][1])):
+        pre = NS.get(qname.namespace)
+        if pre is None or qname.local_name in SKIP or (qname.local_name, arity) in seen:
+            continue
+        seen.add((qname.local_name, arity))
+        fname = pre + qname.local_name
+        if arity == 1:
+            for a in VALS31:
+                tasks.append({'id': tid, 'kind': 'eval', 'version': '31', 'expr': f'{fname}({a})'}); tid += 1
+        elif arity == 2:
+            for a in SMALL:
+                for b in SMALL:
+                    if quick and rng.random() < 0.5:
+                        continue
+                    tasks.append({'id': tid, 'kind': 'eval', 'version': '31', 'expr': f'{fname}({a}, {b})'}); tid += 1
+        elif arity == 3 and not quick:
+            for _ in range(40):
+                tasks.append({'id': tid, 'kind': 'eval', 'version': '31', 'expr': f'{fname}({rng.choice(SMALL)}, {rng.choice(SMALL)}, {rng.choice(SMALL)})'}); tid += 1
     by_id = {t['id']: t for t in tasks}
-    results, hung = run_parallel(tasks, timeout=120 if quick else 900)
+    results, hung = run_parallel(tasks, timeout=180 if quick else 900)
 
     for i, why in hung:
         chk.violation('hang-or-crash', by_id[i], why)
